@@ -37,13 +37,17 @@ func (rs rows) fail(row, witness string) {
 }
 
 // report turns rows into obligations under rule ids given by ruleOf(row).
-func (rs rows) report(c *core.Ctx, r *core.Report, subject *ssa.Function, ruleOf func(row string) string, cons string, need map[string]string) {
+func (rs rows) report(c *core.Ctx, r *core.Report, subject *ssa.Function, ruleOf func(row string) string, cons string, need map[string]string, optional ...string) {
 	var names []string
 	for k := range rs {
 		names = append(names, k)
 	}
+	opt := map[string]bool{}
+	for _, o := range optional {
+		opt[o] = true
+	}
 	for k := range need {
-		if rs[k] == nil {
+		if rs[k] == nil && !opt[k] {
 			names = append(names, k)
 		}
 	}
